@@ -88,7 +88,7 @@ func lexCase(t *vlib.T, fam, src string) {
 // core sub-alphabets used one level deeper than the full ones
 var innerCore = []string{"x", "1", "'s'", "(", ")", "[", "]", "{", "}", "|", ".", ",", ":", "=", "in", "with", "only", "as", "import", "is"}
 var exprCore = []string{"x", "1", "'s'", "(", ")", "[", "]", "{", "}", "|", ".", ",", ":", "?", "-", "+", "~", "..", "==", "is", "not", "in", "and", "upper"}
-var delimCore = append(append([]string{}, delims...), "x", "if", "'s'", " ", "\n", "-", "{", "}", "%")
+var delimCore = append(append([]string{}, delims...), "x", " ", "-", "{", "}", "%")
 
 func runLex(t *vlib.T) {
 	// bounds per tier: maximal number of lexemes
@@ -138,7 +138,7 @@ func runLex(t *vlib.T) {
 					}
 				}
 				lexCase(t, "fs", join(p, " "))
-				if n >= 2 {
+				if n >= 2 && n <= 3 {
 					lexCase(t, "fu", join(p, ""))
 				}
 			})
@@ -167,11 +167,7 @@ func runLex(t *vlib.T) {
 				lexCase(t, "eu", "{{ "+body)
 			})
 		} else if n <= exprCoreN {
-			seqs(exprCore, n, func(p []string) {
-				body := join(p, " ")
-				lexCase(t, "ec", "{{ "+body+" }}")
-				lexCase(t, "eu", "{{ "+body)
-			})
+			seqs(exprCore, n, func(p []string) { lexCase(t, "ec", "{{ "+join(p, " ")+" }}") })
 		}
 	}
 }
